@@ -79,7 +79,17 @@ def tab3(units, R):
             raise AnalysisBroken('TAB3: no switch in %s' % fname)
         s, labels = best
         cond = strip_casts(s['c'])
-        masked = cond.get('k') == 'bin' and cond['op'] == '&' and (const_val(cond['r']) == 0xFF or const_val(cond['l']) == 0xFF)
+        def is_masked(c_):
+            c_ = strip_casts(c_)
+            return c_.get('k') == 'bin' and c_['op'] == '&' and (const_val(c_['r']) == 0xFF or const_val(c_['l']) == 0xFF) and \
+                any(x_.get('k') == 'mem' and x_.get('f') == 'type' for x_ in walk(c_))
+        masked = is_masked(cond)
+        if not masked and cond.get('k') == 'ref' and cond.get('dk') == 'local':
+            # int type = a->type & 0xFF; switch (type): a local that only ever holds a masked type word
+            ldefs = [a_['r'] if a_['op'] == '=' else None for a_ in assignments(fn) if is_ref(a_['l']) and strip_casts(a_['l'])['d'] == cond['d']]
+            ldefs += [d_['init'] for d_ in fn.locals() if d_['d'] == cond['d'] and 'init' in d_]
+            real = [x_ for x_ in ldefs if x_ is None or const_val(x_) is None]
+            masked = bool(real) and all(x_ is not None and is_masked(x_) for x_ in real)
         km = _kind_helper_map(u, fn, cond) if not masked else None
         if km is not None:
             # the switch runs over a kind that a static helper computes from the type word; the helper was evaluated from its body
@@ -718,6 +728,75 @@ def eff6(units, R, roots=('cJSON_Compare',)):
 
 # ---- C12 structure ------------------------------------------------------------------------------------------------
 
+def _returns_false_under(cfg, fn, branch, y, r):
+    """the return r, reached from successor y of `branch` (taken because an element differed), yields false: its value is the constant
+    0, or an expression that is false given which cursor variables are known to be non-NULL at the branch (the loop ran because they
+    were) and have not been assigned since"""
+    if r.expr is None:
+        return False
+    if const_val(r.expr) == 0:
+        return True
+    between = (cfg.reachable(y) | {y}) & (cfg.reachable(r.id, forward=False) | {r.id})
+    assigned = set()
+    for m in between:
+        for ev in node_effects(cfg.nodes[m]):
+            if ev.kind in ('store', 'incdec') and is_ref(ev.lhs):
+                assigned.add(strip_casts(ev.lhs)['d'])
+    nonnull = set()
+    for d_ in [x_['d'] for x_ in list(fn.locals()) + list(fn.params)]:
+        if d_ in assigned:
+            continue
+
+        def nn_edge(nn, l, d_=d_):
+            if nn.kind != 'branch' or l is None or nn.expr is None:
+                return False
+            e = strip_casts(nn.expr)
+            if e.get('k') == 'bin' and e['op'] in ('==', '!='):
+                other = e['l'] if is_null_const(e['r']) else (e['r'] if is_null_const(e['l']) else None)
+                if other is not None and is_ref(other) and strip_casts(other)['d'] == d_:
+                    return (e['op'] == '!=') == (l[0] == 'T')
+            if e.get('k') == 'ref' and e['d'] == d_:
+                return l[0] == 'T'
+            return False
+        if guarded_by(cfg, branch.id, nn_edge):
+            # ... and not reassigned between the test and the branch: the only assignments of a cursor are the steps behind the branch
+            nonnull.add(d_)
+
+    def ev(e):
+        e = strip_casts(e)
+        v = const_val(e)
+        if v is not None:
+            return bool(v)
+        if e.get('k') == 'bin' and e['op'] in ('==', '!='):
+            other = e['l'] if is_null_const(e['r']) else (e['r'] if is_null_const(e['l']) else None)
+            if other is not None and is_ref(other) and strip_casts(other)['d'] in nonnull:
+                return e['op'] == '!='
+            return None
+        if e.get('k') == 'bin' and e['op'] == '&&':
+            a, b = ev(e['l']), ev(e['r'])
+            if a is False or b is False:
+                return False
+            return True if (a is True and b is True) else None
+        if e.get('k') == 'bin' and e['op'] == '||':
+            a, b = ev(e['l']), ev(e['r'])
+            if a is True or b is True:
+                return True
+            return False if (a is False and b is False) else None
+        if e.get('k') == 'un' and e['op'] == '!':
+            a = ev(e['e'])
+            return None if a is None else (not a)
+        if e.get('k') == 'cond':
+            c = ev(e['c'])
+            if c is None:
+                a, b = ev(e['t']), ev(e['e'])
+                return a if a == b else None
+            return ev(e['t'] if c else e['e'])
+        if e.get('k') == 'ref' and e.get('d') in nonnull:
+            return True
+        return None
+    return ev(r.expr) is False
+
+
 def c12_structure(units, R):
     u = units['cJSON.c']
     fn = u.fn('cJSON_Compare')
@@ -837,6 +916,11 @@ def c12_structure(units, R):
                     ok = all(any(r.id in fcfg.reachable(y) | {y} and const_val(r.expr) == 0 for r in fcfg.returns()) and
                              not any(r.id in fcfg.reachable(y, stop={n.id}) | {y} for r in ftrue if _straight(fcfg, y, r.id))
                              for y in fsucc)
+                    if not ok:
+                        ok = bool(fsucc) and all(
+                            [r for r in fcfg.returns() if r.id in fcfg.reachable(y, stop={n.id}) | {y}] and
+                            all(_returns_false_under(fcfg, F, n, y, r) for r in fcfg.returns() if r.id in fcfg.reachable(y, stop={n.id}) | {y})
+                            for y in fsucc)
                     R.ob('C12S', F, e, 'a differing element/member makes the comparison false', ok, '', key='recursion-result')
             elif n.expr is not None and n.kind != 'branch':
                 for c in walk(n.expr):
@@ -930,6 +1014,13 @@ def c12_structure(units, R):
                 ok = all(any(r.id in cfg.reachable(y) | {y} and const_val(r.expr) == 0 for r in cfg.returns()) and
                          not any(r.id in cfg.reachable(y, stop={n.id}) | {y} for r in true_rets if _straight(cfg, y, r.id))
                          for y in fsucc)
+                if not ok:
+                    # no literal `return false`: every return that can follow the differing pair without another comparison yields
+                    # false for what is known about the cursors there (break; return (a == NULL) && (b == NULL);)
+                    ok = bool(fsucc) and all(
+                        [r for r in cfg.returns() if r.id in cfg.reachable(y, stop={n.id}) | {y}] and
+                        all(_returns_false_under(cfg, fn, n, y, r) for r in cfg.returns() if r.id in cfg.reachable(y, stop={n.id}) | {y})
+                        for y in fsucc)
                 R.ob('C12S', fn, e, 'a differing element/member makes the comparison false', ok, '', key='recursion-result')
         elif n.expr is not None:
             for c in walk(n.expr):
@@ -1413,8 +1504,17 @@ def _c12_array(R, u, fn, cfg, region, pa_d, pb_d):
         e = strip_casts(r.expr) if r.expr is not None else {}
         if e.get('k') == 'cond' and const_val(e['t']) not in (None, 0) and const_val(e['e']) == 0:
             e = strip_casts(e['c'])        # (x) ? true : false
-        if e.get('k') == 'bin' and e['op'] == '==' and is_ref(e['l']) and is_ref(e['r']) and \
-                {strip_casts(e['l'])['d'], strip_casts(e['r'])['d']} == {ca, cb} and r.id in region:
+        both_null = False
+        if e.get('k') == 'bin' and e['op'] == '&&' and r.id in region:
+            tested = set()
+            for side in (strip_casts(e['l']), strip_casts(e['r'])):
+                if side.get('k') == 'bin' and side['op'] == '==' and (is_null_const(side['l']) or is_null_const(side['r'])):
+                    o_ = side['l'] if is_null_const(side['r']) else side['r']
+                    if is_ref(o_):
+                        tested.add(strip_casts(o_)['d'])
+            both_null = tested == {ca, cb}
+        if both_null or (e.get('k') == 'bin' and e['op'] == '==' and is_ref(e['l']) and is_ref(e['r']) and
+                         {strip_casts(e['l'])['d'], strip_casts(e['r'])['d']} == {ca, cb} and r.id in region):
             n_arr += 1
             R.ob('C12S', fn, r.stmt, 'arrays compare equal only when both element cursors are exhausted', True,
                  'the result is the comparison of the two cursors itself', key='array-length')
